@@ -42,6 +42,20 @@ def _check(prop, tier, seed, replay, work, t0):
     r1 = vlib.tlc(spec, "Lease", CFG % dict(ids='{"a", "b", "c"}', ttl=3, maxtime=8 if tier == "quick" else 12, hist=0, emit="FALSE",
                                             view="VIEW View", emitinv=""), work, timeout=1800, name="LeaseD")
     vlib.tlc_ok(r1, "Lease.tla exhaustive")
+    # the same design without bounds on time: an inductive invariant discharged by Apalache (Init => IndInv,
+    # IndInv /\ Next => IndInv', IndInv => at most one acting leader), any lease period, any number of ticks
+    ind = []
+    lind = os.path.join(SPEC, "LeaseInd.tla")
+    for what, args in (("Init => IndInv", ["--cinit=ConstInit", "--init=Init", "--inv=IndInv", "--length=0"]),
+                       ("IndInv /\\ Next => IndInv'", ["--cinit=ConstInit", "--init=IndInit", "--inv=IndInv", "--length=1"]),
+                       ("IndInv => AtMostOneActingLeader", ["--cinit=ConstInit", "--init=IndInit", "--inv=AtMostOneActingLeader", "--length=0"])):
+        a = vlib.apalache(lind, args, work)
+        if a is None:
+            ind.append({"obligation": what, "result": "apalache-mc not installed: skipped"})
+            continue
+        if not a["ok"]:
+            raise vlib.HarnessError("LeaseInd.tla: obligation '%s' not discharged by Apalache:\n%s" % (what, a["out"]))
+        ind.append({"obligation": what, "result": "discharged"})
     # bounded behaviours as replayable cases
     hist = 4 if tier == "quick" else 5
     r2 = vlib.tlc(spec, "Lease", CFG % dict(ids='{"a", "b"}', ttl=2, maxtime=hist, hist=hist, emit="TRUE", view="", emitinv="EmitCase"),
@@ -113,7 +127,8 @@ def _check(prop, tier, seed, replay, work, t0):
             continue
         path = vlib.save_replay(prop, "seq%d" % v["trace"], {"property": prop, "invariants": v["names"], "ops": ops, "failing_event": json.loads(lines[i])})
         violations.append({"replay": path, "what": "%s at %s in sequence %s" % (",".join(v["names"]), lines[i], [o["op"] + ":" + o["i"] + ":" + o["f"] for o in ops][:12])})
-    cov = {"states": r1["distinct"] + r2["distinct"], "transitions": r1["generated"] + r2["generated"],
+    cov = {"unbounded_design_proof": {"spec": "LeaseInd.tla", "engine": "apalache (inductive invariant)", "obligations": ind},
+           "states": r1["distinct"] + r2["distinct"], "transitions": r1["generated"] + r2["generated"],
            "traces_validated_against_impl": nseq, "samples": samples[:4], "exhaustive": True,
            "calls_on_real_election": ncalls, "tlc_generated_sequences": n, "of_them_with_a_late_reply": nlate,
            "explanation": "D: 3 contenders, TTL 3, all interleavings of campaign/renew/resign/tick/lost/failed calls (%d distinct states). "
